@@ -1,5 +1,8 @@
 import ZoektModel.Basic.Proto
 import ZoektModel.C11.Spec
+import ZoektModel.C11.Dist
+import ZoektModel.C11.TOC
+import ZoektModel.C11.Btree
 namespace ZoektModel.C11
 open ZoektModel ZoektModel.Proto
 
@@ -34,6 +37,13 @@ def withFile (hex : String) (k : File → String) : String :=
     | .ok f => k f
     | _ => "err"
 
+def renderToc (st : TocState) : String :=
+  ",".intercalate ((knownSections.take 26).map fun (name, k) =>
+    let v := (st.lookup name).getD SecVal.zero
+    match k with
+    | .simple => s!"{name}={v.data.off}+{v.data.sz}"
+    | _ => s!"{name}={v.data.off}+{v.data.sz}/{v.idx.off}+{v.idx.sz}#{v.offsets.length}")
+
 def model (inp : String) : Option String :=
   match fields inp with
   | ["fsd", h] => (hexToBytes? h).map fun d => render showNatList (fromSizedDeltas d)
@@ -44,6 +54,30 @@ def model (inp : String) : Option String :=
     let d ← hexToBytes? h
     let ls ← natList? ls
     pure (render showNatList (pIterRun d ls))
+  | ["dist", h1, h2, d, ls] => do
+    let b1 ← hexToBytes? h1
+    let b2 ← hexToBytes? h2
+    let d ← d.toNat?
+    let ls ← natList? ls
+    pure (render showNatList (distRun b1 b2 d ls))
+  | ["btree", b, v, ngs, qs] => do
+    let b ← b.toNat?
+    let v ← v.toNat?
+    let ngs ← natList? ngs
+    let qs ← natList? qs
+    match Bt.build ⟨b, v⟩ ngs with
+    | none => pure "panic"
+    | some t =>
+      let finds := qs.map fun q => match Bt.find q t 0 0 with
+        | some (a, c) => s!"{a}:{c}"
+        | none => "PANIC"
+      if finds.contains "PANIC" then pure "panic" else
+      let iks := (Bt.innerKeys t).map showNatList
+      pure ("ok:" ++ showNatList (Bt.leaves t) ++ ";" ++ (if iks.isEmpty then "-" else "|".intercalate iks) ++ ";" ++
+        (if finds.isEmpty then "-" else ",".intercalate finds))
+  | ["toc", h, tags] =>
+    let tagList : List Bytes := if tags == "-" then [] else (tags.splitOn ",").map strBytes
+    some (withFile h fun f => render renderToc (readTOCSections f tagList))
   | ["rd", h, off, sz] => do
     let off ← off.toNat?
     let sz ← sz.toNat?
@@ -73,8 +107,20 @@ def model (inp : String) : Option String :=
   | ["bt", h, off, sz] => do
     let off ← off.toNat?
     let sz ← sz.toNat?
-    -- fewer than btreeBucketSize = 1024 ngrams: a single leaf, whatever their order
-    pure (withFile h fun f => render (fun (n : Nat) => if n < 1024 then "1" else "unsupported") (btreeLoad f ⟨off, sz⟩))
+    -- the number of buckets (leaves) of the tree built with btreeBucketSize = 1024, v = 50 from the section's ngrams
+    pure (withFile h fun f =>
+      match btreeLoad f ⟨off, sz⟩ with
+      | .ok _ =>
+        match f.read off sz with
+        | .ok text =>
+          match chunksBE 8 (text.length + 1) text with
+          | .ok ngs =>
+            match Bt.build ⟨1024, 50⟩ ngs with
+            | some t => s!"ok:{(Bt.leaves t).length}"
+            | none => "panic"
+          | _ => "panic"
+        | _ => "err"
+      | o => render (fun (_ : Nat) => "") o)
   | _ => none
 
 def handle (line : String) : String :=
